@@ -241,6 +241,16 @@ class Check:
                 res[f] += [k + i for i in idx]
         return res
 
+    def eval_raw(self, group, imports, body, timeout=300, prelude=""):
+        """Evaluate arbitrary vernacular (after the imports); -> Coq's output text or None"""
+        d = os.path.join(self.tmp, group)
+        os.makedirs(d, exist_ok=True)
+        path = os.path.join(d, "raw_%s_%d.v" % (group, len(os.listdir(d))))
+        with open(path, "w") as fh:
+            fh.write("From LSF Require Import %s.\nOpen Scope string_scope.\n%s\n%s\n" % (imports, prelude, body))
+        rc, out = sh(["timeout", str(timeout), "coqc"] + RFLAGS + [path], cwd=d)
+        return out if rc == 0 else None
+
     # --------------------------------------------------------------- reporting
     def add_group(self, name, evaluations, distinct_nontrivial, samples, **extra):
         self.cov["evaluations"] += evaluations
